@@ -49,6 +49,25 @@ var skippedReaders = map[string]bool{"stylesReader": true, "sharedStringsReader"
 // setArrayFormulaCells is called by getCellFormula only when asked for transformed formulas, which only the engine does.
 var notDescended = map[string]bool{"CalcCellValue": true, "setArrayFormulaCells": true}
 
+// Resources 4, 5 and 6 (style sheet, shared strings, publication of decoded parts) belong to the workbook, and two
+// calls may work on different worksheets: the lock of "the" worksheet (class 2, one mutex per worksheet) excludes
+// nothing between them and is not counted as protection of a workbook-level resource.  (Resources 1, 2, 3 and 7
+// belong to one worksheet and are protected by that worksheet's lock.)
+var workbookLevel = map[int]bool{4: true, 5: true, 6: true}
+
+func protecting(res int, held []int) []int {
+	if !workbookLevel[res] {
+		return held
+	}
+	out := []int{}
+	for _, l := range held {
+		if l != 2 {
+			out = append(out, l)
+		}
+	}
+	return out
+}
+
 type access struct {
 	Res   int    `json:"resource"`
 	Write bool   `json:"write"`
@@ -187,7 +206,7 @@ func (g *gen) record(sel *ast.SelectorExpr, write bool, held lockset) {
 		return
 	}
 	p := g.fset.Position(sel.Pos())
-	g.out = append(g.out, access{Res: res, Write: write, Locks: held.list(), Pos: fmt.Sprintf("%s:%d", filepath.Base(p.Filename), p.Line), Via: g.via})
+	g.out = append(g.out, access{Res: res, Write: write, Locks: protecting(res, held.list()), Pos: fmt.Sprintf("%s:%d", filepath.Base(p.Filename), p.Line), Via: g.via})
 }
 
 // scan an expression: accesses (write if under an assignment target), calls into the package
@@ -293,7 +312,7 @@ func (g *gen) call(call *ast.CallExpr, held lockset, depth int) {
 			g.republished = append(g.republished, fmt.Sprintf("%s:%d via %s", filepath.Base(p.Filename), p.Line, g.via))
 			return
 		}
-		g.out = append(g.out, access{Res: 6, Write: true, Locks: held.list(), Pos: fmt.Sprintf("%s:%d", filepath.Base(p.Filename), p.Line), Via: g.via})
+		g.out = append(g.out, access{Res: 6, Write: true, Locks: protecting(6, held.list()), Pos: fmt.Sprintf("%s:%d", filepath.Base(p.Filename), p.Line), Via: g.via})
 		return
 	}
 	if notDescended[fn.Name()] || skippedReaders[fn.Name()] {
